@@ -23,16 +23,31 @@ class Context:
             prog = self._progs[key]
             from . import paths
 
+            callers = {}
+
+            def callers_of(mn, prog=prog):
+                if not callers:
+                    for h in prog.functions.values():
+                        for c in h.calls():
+                            cc = c.get("callee")
+                            if cc and cc.get("dispatch") == "direct":
+                                callers.setdefault(cc["mn"], set()).add(h.mn)
+                return callers.get(mn, set())
+
             def resolver(f, call, prog=prog):
+                """helpers that are spliced into their caller's paths: file-static functions, and non-virtual member
+                functions of the caller's own class in the same file that have at most two callers (extracted helpers)"""
                 c = call.get("callee")
                 if not c or c.get("dispatch") != "direct":
                     return None
                 g = prog.functions.get(c["mn"])
-                if g is None or g is f or g.file != f.file or not g.d.get("static") or g.kind != "function":
+                if g is None or g is f or g.file != f.file or g.qn in paths.NO_INLINE:
                     return None
-                if g.qn in paths.NO_INLINE:
-                    return None
-                return g
+                if g.kind == "function" and g.d.get("static"):
+                    return g
+                if g.kind == "method" and g.cls == f.cls and not g.d.get("virtual") and len(callers_of(g.mn)) <= 2 and f.mn in callers_of(g.mn):
+                    return g
+                return None
             paths.DEFAULT_INLINE = resolver
         return self._progs[key]
 
